@@ -29,6 +29,10 @@ pub const A_DEC_ALIVE: u32 = 102;
 pub const A_DEREF_ALIVE: u32 = 103;
 pub const A_CREATE_FRESH: u32 = 104;
 
+/// When set (by a setup function, before any concurrency) the "destructor" scribbles over the payload
+/// with a plain write: the race detector (C07) then sees a conflicting non-atomic access at destruction.
+pub static SCRIBBLE: HAtomic = HAtomic::new(0);
+
 pub struct VPtr(*const Obj);
 unsafe impl Send for VPtr {}
 unsafe impl Sync for VPtr {}
@@ -53,6 +57,11 @@ impl VPtr {
     #[inline]
     pub fn raw(&self) -> *const Obj {
         self.0
+    }
+    /// Plain write of the payload through a handle the caller knows to be unique (before publishing).
+    #[inline]
+    pub fn set_payload(&self, v: u64) {
+        unsafe { *self.obj().payload.get() = v };
     }
     /// Read the payload through the handle (a non-atomic access) checking the object is alive.
     #[inline]
@@ -82,7 +91,15 @@ impl Drop for VPtr {
     fn drop(&mut self) {
         let prev = self.obj().count.fetch_sub(1, Release);
         vassert(prev != 0, A_DEC_ALIVE);
-        fence(Acquire);
+        if SCRIBBLE.peek() != 0 {
+            // exactly what Arc does: only the thread that drops the last reference fences and destroys
+            if prev == 1 {
+                fence(Acquire);
+                unsafe { *self.obj().payload.get() = 0xdead };
+            }
+        } else {
+            fence(Acquire);
+        }
     }
 }
 
